@@ -1,9 +1,43 @@
 (* C04: the deletion loop of Processor._delete_nodes refines the declarative
-   [prune] whenever the processed coordinates are free of duplicates and
-   disorder. *)
+   [prune] whenever the places it processes are free of duplicates and
+   disorder ([ordered_from], a proof-internal invariant: Proofs/C04plan.v shows
+   that the order the repaired code puts them in always is). *)
 From Coq Require Import List ZArith NArith Bool Lia Arith.
 From YP Require Import Outcome PyStr PyVal Doc Searches Mutate C04spec C04lists.
 Import ListNotations.
+
+(* ---- the invariant of the loop ----
+   In the order in which the places are processed no node is named twice, the
+   positions named in one sequence strictly decrease and are not negative. *)
+Definition is_neg (r : pyval) : bool := match r with PInt z => (z <? 0)%Z | _ => false end.
+
+Definition step_ok (d : node) (T : list target) (po : option N) (r : pyval) : bool :=
+  match po with
+  | None => false
+  | Some o =>
+      match objs o d with
+      | [] => true                                     (* object not in the document: nothing happens *)
+      | [n0] =>
+          match n0, child_index r n0 with
+          | NSeq _ els, Some i => negb (is_neg r) && forallb (fun k => negb (inT T o k)) (seq 0 (S i))
+          | NSeq _ els, None => match r with PInt z => true | _ => false end
+          | NMap _ _, Some i => negb (inT T o i)
+          | NMap _ _, None => true
+          | NSet _ _, Some i => negb (inT T o i)
+          | NSet _ _, None => false
+          | NLeaf _ _, _ => true
+          end
+      | _ => false
+      end
+  end.
+
+Fixpoint ordered_from (d : node) (T : list target) (ps : list (option N * pyval)) : bool :=
+  match ps with
+  | [] => true
+  | (po, r) :: rest =>
+      step_ok d T po r &&
+      ordered_from d (match target_of d po r with Some t => t :: T | None => T end) rest
+  end.
 
 (* ---- prune: extensionality and identity ---- *)
 Lemma prune_ext : forall T T' d,
@@ -192,12 +226,13 @@ Lemma local_del_seq : forall T inf els r i,
   wf_doc (NSeq inf els) ->
   child_index r (NSeq inf els) = Some i ->
   (forall k, k <= i -> T (oid inf) k = false) ->
-  (is_neg r = true -> forall k, k < length els -> T (oid inf) k = false) ->
+  is_neg r = false ->
   del_in r (prune T (NSeq inf els)) = ROk (prune (addT T (oid inf) i) (NSeq inf els)).
 Proof.
   intros T inf els r i Hwf Hci Hle Hneg.
   rewrite prune_add_seq by assumption.
   simpl in Hci. destruct r as [| |z| | |]; try discriminate.
+  simpl in Hneg. apply Z.ltb_ge in Hneg.
   set (keep := fun k => negb (T (oid inf) k)).
   assert (Hlen : length (map (prune T) els) = length els) by apply map_length.
   destruct ((0 <=? z)%Z && (z <? Z.of_nat (length els))%Z) eqn:E1.
@@ -212,22 +247,8 @@ Proof.
       by (symmetry; apply Z.ltb_lt; lia).
     replace (0 <=? z)%Z with true by (symmetry; apply Z.leb_le; lia).
     simpl. rewrite H2. reflexivity.
-  - destruct ((z <? 0)%Z && (0 <=? z + Z.of_nat (length els))%Z) eqn:E2; [|discriminate].
-    apply andb_true_iff in E2. destruct E2 as [E2 E3].
-    apply Z.ltb_lt in E2. apply Z.leb_le in E3.
-    inversion Hci; subst i. clear Hci.
-    assert (Hall : forall k, k < length els -> T (oid inf) k = false).
-    { apply Hneg. simpl. apply Z.ltb_lt. exact E2. }
-    assert (HF : filter_from keep 0 (map (prune T) els) = map (prune T) els).
-    { apply filter_from_all. intros k Hk. unfold keep. rewrite Hall; auto. rewrite Hlen in Hk. lia. }
-    destruct (remove_filter_pos _ keep (map (prune T) els) 0 (Z.to_nat (z + Z.of_nat (length els)))) as [H1 H2].
-    { intros k Hk. unfold keep. rewrite Hall; auto. lia. }
-    { rewrite Hlen. lia. }
-    unfold del_in, del_index. simpl. fold keep. rewrite HF in *. rewrite Hlen.
-    replace (z <? Z.of_nat (length els))%Z with true by (symmetry; apply Z.ltb_lt; lia).
-    replace (0 <=? z)%Z with false by (symmetry; apply Z.leb_gt; lia).
-    replace (0 <=? z + Z.of_nat (length els))%Z with true by (symmetry; apply Z.leb_le; lia).
-    simpl. rewrite H2. reflexivity.
+  - replace (z <? 0)%Z with false in Hci by (symmetry; apply Z.ltb_ge; lia).
+    simpl in Hci. discriminate.
 Qed.
 
 Lemma local_del_map : forall T inf kvs r i,
@@ -276,16 +297,19 @@ Proof.
 Qed.
 
 Lemma local_del_none_seq : forall T inf els z,
-  (Z.of_nat (length els) <= z)%Z ->
+  child_index (PInt z) (NSeq inf els) = None ->
   del_in (PInt z) (prune T (NSeq inf els)) = ROk (prune T (NSeq inf els)).
 Proof.
-  intros T inf els z Hz.
+  intros T inf els z Hci.
   unfold del_in, del_index. simpl.
   pose proof (filter_from_length_le _ (fun k => negb (T (oid inf) k)) (map (prune T) els) 0) as Hl.
   rewrite map_length in Hl.
-  replace (z <? Z.of_nat (length (filter_from (fun k => negb (T (oid inf) k)) 0 (map (prune T) els))))%Z
-    with false by (symmetry; apply Z.ltb_ge; lia).
-  reflexivity.
+  simpl in Hci.
+  destruct ((0 <=? z)%Z && (z <? Z.of_nat (length els))%Z) eqn:E1; [discriminate|].
+  replace ((0 <=? z)%Z && (z <? Z.of_nat (length (filter_from (fun k => negb (T (oid inf) k)) 0 (map (prune T) els))))%Z)
+    with false; [reflexivity|].
+  symmetry. apply andb_false_iff. apply andb_false_iff in E1. destruct E1 as [E1|E1]; [left; exact E1|right].
+  apply Z.ltb_ge. apply Z.ltb_ge in E1. lia.
 Qed.
 
 (* ---- one step of the loop under the guard ---- *)
@@ -334,7 +358,7 @@ Proof.
         apply local_del_none_map; auto.
     + (* sequence *)
       destruct (child_index r (NSeq inf els)) as [i|] eqn:Eci; simpl option_map.
-      * apply andb_true_iff in Hok. destruct Hok as [Hok1 Hok2].
+      * apply andb_true_iff in Hok. destruct Hok as [Hok2 Hok1].
         rewrite (prune_ext (inT ((oid inf, i) :: Tl)) (addT (inT Tl) (oid inf) i))
           by (intros; apply inT_cons).
         apply app_obj_prune.
@@ -342,13 +366,12 @@ Proof.
            apply local_del_seq; auto.
            ++ intros k Hk. apply negb_true_iff.
               apply (forallb_seq0 (fun k => negb (inT Tl (oid inf) k)) (S i)); auto. lia.
-           ++ intros Hn k Hk. rewrite Hn in Hok2. simpl in Hok2. apply negb_true_iff.
-              apply (forallb_seq0 (fun k => negb (inT Tl (oid inf) k)) (length els)); auto.
+           ++ apply negb_true_iff. exact Hok2.
         -- intros. apply addT_other; auto.
       * destruct r as [| |z| | |]; try discriminate.
         apply app_obj_prune; auto.
         intros n Hn. rewrite Eo in Hn. destruct Hn as [<-|[]].
-        apply local_del_none_seq. apply Z.leb_le. exact Hok.
+        apply local_del_none_seq. exact Eci.
     + (* set *)
       destruct (child_index r (NSet inf els)) as [i|] eqn:Eci; simpl option_map; [|discriminate].
       rewrite (prune_ext (inT ((oid inf, i) :: Tl)) (addT (inT Tl) (oid inf) i))
@@ -389,39 +412,33 @@ Proof.
     destruct (inT (targets d rest) o k), (inT [(o1, i1)] o k), (inT Tl o k); reflexivity.
 Qed.
 
-Theorem delete_exact : forall d cs,
+Theorem run_del_exact : forall d ps,
   wf_doc d ->
-  no_dup_no_disorder d (map pc_pair (del_order cs)) = true ->
-  delete_nodes cs d = MDone (delete_spec d (map pc_pair (del_order cs))).
+  ordered_from d [] (map pc_pair ps) = true ->
+  run_del ps d = MDone (delete_spec d (map pc_pair ps)).
 Proof.
-  intros d cs Hwf Hg. unfold delete_nodes, delete_spec, no_dup_no_disorder in *.
+  intros d ps Hwf Hg. unfold delete_spec.
   rewrite <- (prune_none (inT []) d) at 1 by reflexivity.
   rewrite run_del_acc by assumption. f_equal.
   apply prune_ext. intros o _ k. rewrite acc_targets_inT. simpl. apply orb_false_r.
 Qed.
 
-(* a single path without Collectors: plain coordinates *)
-Lemma del_order_plain : forall ps,
-  del_order (map (fun p => CNode p false) ps) = rev ps.
+(* a root coordinate anywhere among the gathered ones: refused before anything is deleted *)
+Lemma has_root_coord_true : forall ps, In None (map pc_parent ps) -> has_root_coord ps = true.
 Proof.
-  induction ps as [|p r IH]; simpl; auto. unfold del_order in *. simpl. rewrite IH. reflexivity.
+  intros ps H. apply in_map_iff in H. destruct H as [p [Hp Hin]].
+  unfold has_root_coord. apply existsb_exists. exists p. split; auto. rewrite Hp. reflexivity.
 Qed.
 
-Theorem root_refused : forall cs r rest d,
-  del_order cs = mkpc None r :: rest ->
+Theorem root_refused : forall cs d,
+  In None (map pc_parent (leaf_coords cs)) ->
   delete_nodes cs d = Failed d (YPE NoDocument).
-Proof. intros cs r rest d H. unfold delete_nodes. rewrite H. reflexivity. Qed.
+Proof. intros cs d H. unfold delete_nodes. rewrite (has_root_coord_true _ H). reflexivity. Qed.
 
-(* whatever else is matched, a root coordinate never lets the loop finish *)
-Lemma run_del_root_fails : forall ps d, In None (map pc_parent ps) -> exists d' e, run_del ps d = Failed d' e.
-Proof.
-  induction ps as [|p r IH]; intros d Hin; simpl in *; [contradiction|].
-  destruct (del_step p d) eqn:E.
-  - destruct Hin as [Hp|Hin].
-    + unfold del_step in E. rewrite Hp in E. discriminate.
-    + apply IH; auto.
-  - eauto.
-Qed.
+Theorem root_refused_mg : forall mg cs d,
+  In None (map pc_parent (leaf_coords cs)) ->
+  delete_nodes_mg mg cs d = Failed d (YPE NoDocument).
+Proof. intros mg cs d H. unfold delete_nodes_mg. rewrite (has_root_coord_true _ H). reflexivity. Qed.
 
 Lemma nodupb_sound : forall l, nodupb l = true -> NoDup l.
 Proof.
